@@ -132,7 +132,8 @@ struct State {
     active: bool,
     threads: Vec<Th>,
     current: Option<Tid>,
-    pending: VecDeque<(u64, Op)>,
+    /// foreign threads that checked in and wait for adoption: (ticket, first operation, pthread_self)
+    pending: VecDeque<(u64, Op, usize)>,
     adopted: Vec<(u64, Tid)>,
     next_ticket: u64,
     objs: Vec<Obj>,
@@ -648,7 +649,7 @@ pub fn point(op: Op) {
             // foreign thread (spawned by the subject): wait for adoption
             let ticket = st.next_ticket;
             st.next_ticket += 1;
-            st.pending.push_back((ticket, op.clone()));
+            st.pending.push_back((ticket, op.clone(), unsafe { libc::pthread_self() } as usize));
             st.live_os_threads += 1;
             let epoch = st.epoch;
             sched().cv.notify_all();
@@ -762,17 +763,43 @@ pub fn join_wait(pthread: usize) -> bool {
     }
     let reg = ME.try_with(|m| m.get()).ok().flatten();
     let target = {
-        let st = lock();
+        let mut st = lock();
+        if std::env::var_os("DETSCHED_JOIN_TRACE").is_some() {
+            eprintln!("join_wait({pthread:#x}): reg={reg:?} active={} aborting={} epoch={} threads={:?} pending={:?}", st.active, st.aborting, st.epoch, st.threads.iter().map(|t| (t.name.clone(), t.pthread)).collect::<Vec<_>>(), st.pending.iter().map(|p| p.2).collect::<Vec<_>>());
+        }
         if !st.active || st.aborting || reg.map(|(ep, _)| ep) != Some(st.epoch) {
             return false;
         }
-        match st.threads.iter().position(|t| t.pthread == pthread && pthread != 0) {
+        // pthread ids are reused as soon as a thread has been joined: the live one is the latest
+        match st.threads.iter().rposition(|t| t.pthread == pthread && pthread != 0) {
             Some(t) => t,
-            None => return false,
+            None => {
+                // a thread of the code under test that has checked in but that the harness has not
+                // adopted (yet): joining it would wait for a thread that waits for the scheduler --
+                // adopt it here, so that it can be run to its end
+                match st.pending.iter().position(|(_, _, p)| *p == pthread && pthread != 0) {
+                    Some(k) => {
+                        let (ticket, op, pt) = st.pending.remove(k).unwrap();
+                        let tid = st.threads.len();
+                        st.threads.push(Th { status: Status::AtPoint(op), name: format!("joined{tid}"), harness: false, steps: 0, timed_out: false, free_timeouts: 0, pthread: pt });
+                        st.adopted.push((ticket, tid));
+                        sched().cv.notify_all();
+                        tid
+                    }
+                    None => return false,
+                }
+            }
         }
     };
     match std::panic::catch_unwind(std::panic::AssertUnwindSafe(|| point(Op::Join(target)))) {
-        Ok(()) => true,
+        Ok(()) => {
+            // joined: its pthread id may now be given to a new thread
+            let mut st = lock();
+            if let Some(t) = st.threads.get_mut(target) {
+                t.pthread = 0;
+            }
+            true
+        }
         Err(e) => {
             if !e.is::<Aborted>() {
                 std::panic::resume_unwind(e);
@@ -942,10 +969,12 @@ pub fn adopt(n: usize, name: &str) {
         }
     }
     for i in 0..n {
-        let (ticket, op) = st.pending.pop_front().unwrap();
+        let (ticket, op, pthread) = st.pending.pop_front().unwrap();
         let tid = st.threads.len();
         let nm = if n == 1 { name.to_string() } else { format!("{name}{i}") };
-        st.threads.push(Th { status: Status::AtPoint(op), name: nm, harness: false, steps: 0, timed_out: false, free_timeouts: 0, pthread: 0 });
+        // the OS thread is known from the moment the thread is adopted (a join of it may come before the
+        // adopted thread has had a chance to run again)
+        st.threads.push(Th { status: Status::AtPoint(op), name: nm, harness: false, steps: 0, timed_out: false, free_timeouts: 0, pthread });
         st.adopted.push((ticket, tid));
     }
     sched().cv.notify_all();
